@@ -20,8 +20,9 @@
 EXTENDS Naturals, Integers, Sequences, FiniteSets, TLC, WeakMem
 
 CONSTANTS Stale,   \* BOOLEAN: loads may read non-latest messages
-          Spur,    \* BOOLEAN: compare_exchange_weak may fail spuriously
-          Configs  \* set of configurations [mode, count, prog]
+          Configs  \* set of configurations [mode, count, spur, fx0, prog]
+                   \* (spur: compare_exchange_weak may fail spuriously;  fx0: initial futex word = waiters registered
+                   \*  by earlier slow-path get / wait_for calls -- the counter is never decremented)
 
 VARIABLES cfg, ms, pc, L, H, nx, now, ev
 
@@ -50,7 +51,7 @@ LocName(x) == x[1]
 LocIdx(x) == x[2]
 
 L0 == [opi |-> 1, seen |-> 0, head |-> 0, cur |-> 0, until |-> 0, rem |-> 0, dl |-> 0, res |-> 0,
-       timed |-> FALSE, wk |-> "", cbid |-> 0, inl |-> FALSE, after |-> FALSE, t0 |-> 0, setter |-> FALSE]
+       timed |-> FALSE, wk |-> "", cbid |-> 0, inl |-> FALSE, after |-> FALSE, t0 |-> 0, setter |-> FALSE, sp |-> FALSE]
 
 \* a latch constructed with count 0 is published by its constructor
 PreSet(c) == c.mode = "latch" /\ c.count = 0
@@ -59,7 +60,7 @@ H0(c) == [constructed |-> PreSet(c), value |-> 0, svCalled |-> PreSet(c), svDone
           cbs |-> {}, ran |-> {}, bad |-> ""]
 
 MS0(c) == WMInit(1..Len(c.prog),
-                 (HeadLoc :> (IF PreSet(c) THEN SEALED ELSE 0)) @@ (FutexLoc :> (IF PreSet(c) THEN READY ELSE 0)) @@ (CountLoc :> c.count))
+                 (HeadLoc :> (IF PreSet(c) THEN SEALED ELSE 0)) @@ (FutexLoc :> (IF PreSet(c) THEN READY ELSE c.fx0)) @@ (CountLoc :> c.count))
 PC0(c) == [t \in 1..Len(c.prog) |-> "idle"]
 LL0(c) == [t \in 1..Len(c.prog) |-> L0]
 
@@ -96,7 +97,8 @@ DoRmw(t, x, kind, F(_), a, site, M(_), K(_)) ==
      /\ K(old)
 
 \* compare_exchange_weak on memory state m; the failure order is the site  <site>_fail
-DoCasM(m, t, x, e, d, site, M(_), K(_, _)) ==
+\* (a spurious failure of the weak form is explored at most once per operation: mayspur)
+DoCasM(m, t, x, e, d, mayspur, site, M(_), K(_, _)) ==
   LET mo == M(site)
       fsite == site \o "_fail"
       mof == M(fsite)
@@ -105,7 +107,7 @@ DoCasM(m, t, x, e, d, site, M(_), K(_, _)) ==
         /\ ms' = ScAfter(RmwEff(ScBefore(m, t, mo), t, x, d, mo, KeepAll), t, mo)
         /\ ev' = [NoEv EXCEPT !.t = t, !.k = "cas", !.site = site, !.mo = mo, !.loc = LocName(x), !.i = LocIdx(x), !.v = old, !.a = e, !.b = d, !.ok = TRUE]
         /\ K(TRUE, old)
-     \/ /\ (old # e \/ Spur)
+     \/ /\ (old # e \/ (cfg.spur /\ mayspur))
         /\ ms' = CasFailEff(m, t, x, mof)
         /\ ev' = [NoEv EXCEPT !.t = t, !.k = "cas", !.site = fsite, !.mo = mof, !.loc = LocName(x), !.i = LocIdx(x), !.v = old, !.a = e, !.b = d, !.ok = FALSE]
         /\ K(FALSE, old)
@@ -132,7 +134,7 @@ Call(t) ==
   /\ LET o == Op(t)
      IN /\ Goto(t, FirstPc(o))
         /\ SetL(t, [L[t] EXCEPT !.after = H.svDone /\ ~Stale, !.t0 = now, !.res = 0, !.timed = (o.op = "wf"),
-                                !.wk = IF o.op = "wf" THEN "wf" ELSE "get", !.inl = FALSE, !.setter = FALSE])
+                                !.wk = IF o.op = "wf" THEN "wf" ELSE "get", !.inl = FALSE, !.setter = FALSE, !.sp = FALSE])
         /\ H' = [H EXCEPT !.svCalled = @ \/ o.op = "sv",
                           !.cbs = IF o.op \in {"of", "th"} THEN @ \cup {NodeId(t)} ELSE @]
         /\ ev' = [NoEv EXCEPT !.t = t, !.k = "call", !.op = o.op, !.n = o.n, !.id = NodeId(t)]
@@ -246,11 +248,11 @@ OfCas(t, M(_)) ==
   /\ LET id == NodeId(t)
          m1 == NaWriteEff(ms, t, NodeCell(id), Thr)
      IN /\ nx' = (id :> L[t].head) @@ nx
-        /\ DoCasM(m1, t, HeadLoc, L[t].head, id, "of_head_cas", M,
+        /\ DoCasM(m1, t, HeadLoc, L[t].head, id, ~L[t].sp, "of_head_cas", M,
                   LAMBDA ok, old :
                     IF ok THEN UNCHANGED L /\ Goto(t, "ret")
                     ELSE IF old = SEALED THEN SetL(t, [L[t] EXCEPT !.cbid = id, !.inl = TRUE, !.head = old]) /\ Goto(t, "cbb")
-                    ELSE SetL(t, [L[t] EXCEPT !.head = old]) /\ UNCHANGED pc)
+                    ELSE SetL(t, [L[t] EXCEPT !.head = old, !.sp = @ \/ (old = L[t].head)]) /\ UNCHANGED pc)
   /\ UNCHANGED <<cfg, H, now>>
 
 (***************************************************************************)
